@@ -72,8 +72,11 @@ type runSpec struct {
 	Src   string
 	Prog  *program
 	Limit int64 // gas limit, datoshi (finite)
-	Base  int64 // price of one opcode unit in picoGAS
+	Base  int64 // price of one opcode unit in picoGAS (plain VM only)
 	Note  string
+	// real-chain binding: the VM of an interop context of a real Blockchain (fresh, nothing loaded); the scripts of
+	// Prog are deployed contracts (Hash = contract hash) and the transaction script
+	ChainVM *vm.VM
 }
 
 type runOut struct {
@@ -91,6 +94,14 @@ type runOut struct {
 	Unwinds  int // script contexts unloaded by exception unwinding
 	Dropped  int // cells left on stacks that unwinding dropped
 	Cyc      bool
+}
+
+// opName: mnemonic of the instruction executed before an observation ("load" before the first one)
+func opName(op opcode.Opcode, off int) string {
+	if off < 0 {
+		return "load"
+	}
+	return op.String()
 }
 
 func limbs(x int64) []int64 {
@@ -337,14 +348,23 @@ func execute(res *vh.Result, tr *vh.Trace, rs runSpec) runOut {
 			}
 		}()
 	}
+	bind := "vm"
+	if rs.ChainVM != nil {
+		bind = "chain"
+	}
 	tr.Emit(map[string]any{"e": "i", "id": id, "src": rs.Src, "lim": limbs(rs.Limit), "chk": checked,
-		"n": len(p.Scripts), "scripts": hexes, "base": rs.Base, "note": rs.Note})
+		"n": len(p.Scripts), "scripts": hexes, "base": rs.Base, "note": rs.Note, "bind": bind})
 
-	v := vm.New()
-	base := rs.Base
-	v.SetPriceGetter(func(op opcode.Opcode, _ []byte) int64 { return fee.Opcode(base, op) })
+	v := rs.ChainVM
+	if v == nil {
+		v = vm.New()
+		base := rs.Base
+		v.SetPriceGetter(func(op opcode.Opcode, _ []byte) int64 { return fee.Opcode(base, op) })
+	}
 	ob := &observer{v: v, byHash: byHash, lastOff: -1, lastH: -1}
-	v.SyscallHandler = ob.loader(p, &out)
+	if rs.ChainVM == nil {
+		v.SyscallHandler = ob.loader(p, &out)
+	}
 	drifted := false
 	hit := map[[2]int]bool{}
 	src3 := rs.Src
@@ -356,6 +376,10 @@ func execute(res *vh.Result, tr *vh.Trace, rs runSpec) runOut {
 		out.MaxIDep = max(out.MaxIDep, s.o.IDepth)
 		out.MaxSC = max(out.MaxSC, len(s.o.SCs))
 		switch s.Across {
+		case "call":
+			if rs.ChainVM != nil {
+				out.Loads++
+			}
 		case "ret":
 			out.Rets++
 		case "unwind":
@@ -384,7 +408,7 @@ func execute(res *vh.Result, tr *vh.Trace, rs runSpec) runOut {
 		tr.Emit(map[string]any{"e": "s", "h": hi, "o": off, "op": int(op), "r": refs, "w": s.o.Walked, "wa": s.WA, "c": ob.cyc,
 			"b": s.o.Bits, "z": s.o.Size, "i": s.o.IDepth, "t": s.o.TDepth, "g": limbs(v.GasConsumed()), "k": onb,
 			"st": v.State().String(), "x": s.Across, "ss": ss, "fr": fr, "sl": sl, "sx": sx, "lop": int(ob.lastOp),
-			"cb": ob.unloads})
+			"lopn": opName(ob.lastOp, ob.lastOff), "opn": op.String(), "cb": ob.unloads})
 		res.Count([]any{src3, int(ob.lastOp), int(op), refs - s.o.Walked, s.WA - s.o.Walked, ob.cyc, s.Across, fr, sl})
 		if m, ok := p.Marks[[2]int{hi, off}]; ok && !hit[[2]int{hi, off}] {
 			hit[[2]int{hi, off}] = true
@@ -398,7 +422,11 @@ func execute(res *vh.Result, tr *vh.Trace, rs runSpec) runOut {
 		}
 		ob.lastOff, ob.lastOp, ob.lastH = off, op, hi
 	})
-	v.LoadWithFlags(p.Scripts[0].Code, callflag.All)
+	if rs.ChainVM == nil {
+		v.LoadWithFlags(p.Scripts[0].Code, callflag.All)
+	} else {
+		v.LoadScriptWithFlags(p.Scripts[0].Code, callflag.All)
+	}
 	v.SetGasLimit(rs.Limit)
 	var runErr error
 	var panicked any
@@ -411,12 +439,12 @@ func execute(res *vh.Result, tr *vh.Trace, rs runSpec) runOut {
 	out.Halted = v.HasHalted() && !v.HasFailed()
 	if panicked != nil {
 		out.Panicked = true
-		res.Violate(map[string]any{"part": "xscript", "kind": "panic", "op": ob.lastOp.String(), "across": ""},
+		res.Violate(map[string]any{"part": "xscript", "kind": "panic", "op": ob.lastOp.String(), "across": "", "binding": bind},
 			fmt.Sprintf("a Go panic escaped VM.Run at script %d offset %d (%s): %v", ob.lastH, ob.lastOff, ob.lastOp, panicked),
 			map[string]any{"scripts": hexes, "limit": rs.Limit, "base": rs.Base})
 	}
 	fin := map[string]any{"e": "f", "st": out.State, "p": out.Panicked, "g": limbs(out.Gas), "err": runErr != nil,
-		"h": ob.lastH, "lo": ob.lastOff, "lop": int(ob.lastOp), "cb": ob.unloads, "loads": out.Loads}
+		"h": ob.lastH, "lo": ob.lastOff, "lop": int(ob.lastOp), "lopn": opName(ob.lastOp, ob.lastOff), "cb": ob.unloads, "loads": out.Loads}
 	if !out.Panicked && !v.HasFailed() {
 		refs := v.VerifRefs()
 		s := ob.observe(refs, true)
@@ -427,6 +455,13 @@ func execute(res *vh.Result, tr *vh.Trace, rs runSpec) runOut {
 		fin["r"], fin["w"], fin["wa"], fin["c"], fin["b"], fin["z"], fin["i"], fin["t"], fin["x"] = 0, 0, 0, ob.cyc, 0, 0, 0, 0, ""
 	}
 	out.Cyc = ob.cyc
+	if runErr != nil {
+		m := runErr.Error()
+		if len(m) > 160 {
+			m = m[:160]
+		}
+		fin["msg"] = m
+	}
 	tr.Emit(fin)
 	res.Traces++
 	if p.ExpectFault && out.MarksHit == len(p.Marks) && out.State != "FAULT" {
